@@ -11,6 +11,7 @@ import (
 	"strings"
 
 	"github.com/creachadair/mds/stack"
+	"verif/elem"
 	"verif/vk"
 )
 
@@ -26,7 +27,8 @@ type Op struct {
 
 // SeqCase is a history for a stack or an mlink.Queue.
 type SeqCase struct {
-	Ctor string `json:"ctor"` // "zero" or "new"
+	Ctor string `json:"ctor"`           // "zero" or "new"
+	Elem string `json:"elem,omitempty"` // element kind (see kinds.go); "" = int
 	Ops  []Op   `json:"ops"`
 }
 
@@ -84,10 +86,11 @@ func opCtx(step int, ops []Op) string {
 // ---------------------------------------------------------------------------
 // stack.Stack
 
-type stackRun struct {
-	keptSlice, keptCopy []int // an earlier Slice() result and a private copy of it
+type stackRun[T any] struct {
+	b                   *bound[T]
+	keptSlice, keptCopy []T // an earlier Slice() result and a private copy of it
 	c                   SeqCase
-	s                   *stack.Stack[int]
+	s                   *stack.Stack[T]
 	ref                 []int // bottom first
 	serial              int
 	step                int
@@ -102,12 +105,12 @@ type stackRun struct {
 	popEmpty    int
 }
 
-func (r *stackRun) errf(format string, args ...any) string {
-	return fmt.Sprintf("stack %s (sub-step %d, ctor %s): %s", opCtx(r.step, r.c.Ops), r.sub, r.c.Ctor, fmt.Sprintf(format, args...))
+func (r *stackRun[T]) errf(format string, args ...any) string {
+	return fmt.Sprintf("stack %s (sub-step %d, ctor %s): %s%s", opCtx(r.step, r.c.Ops), r.sub, r.c.Ctor, fmt.Sprintf(format, args...), r.b.note())
 }
 
 // topFirst returns the reference in the order Each and Slice must use.
-func (r *stackRun) topFirst() []int {
+func (r *stackRun[T]) topFirst() []int {
 	out := make([]int, len(r.ref))
 	for i, v := range r.ref {
 		out[len(r.ref)-1-i] = v
@@ -115,22 +118,22 @@ func (r *stackRun) topFirst() []int {
 	return out
 }
 
-func (r *stackRun) checkPeek(n int) string {
+func (r *stackRun[T]) checkPeek(n int) string {
 	got, ok := r.s.Peek(n)
 	if n >= len(r.ref) {
 		if ok {
-			return r.errf("Peek(%d) = (%d, true) on a stack of %d elements, want ok = false", n, got, len(r.ref))
+			return r.errf("Peek(%d) = (%s, true) on a stack of %d elements, want ok = false", n, r.b.show(got), len(r.ref))
 		}
 		return ""
 	}
 	want := r.ref[len(r.ref)-1-n]
-	if !ok || got != want {
-		return r.errf("Peek(%d) = (%d, %v), want (%d, true) (top first: %s)", n, got, ok, want, brief(r.topFirst()))
+	if !ok || !r.b.is(got, want) {
+		return r.errf("Peek(%d) = (%s, %v), want (%s, true) (top first: %s)", n, r.b.show(got), ok, r.b.want(want), r.b.wants(r.topFirst()))
 	}
 	return ""
 }
 
-func (r *stackRun) check() string {
+func (r *stackRun[T]) check() string {
 	n := len(r.ref)
 	if n > r.maxDepth {
 		r.maxDepth = n
@@ -146,30 +149,30 @@ func (r *stackRun) check() string {
 	if n > 0 {
 		wantTop = want[0]
 	}
-	if got := r.s.Top(); got != wantTop {
-		return r.errf("Top = %d, want %d (top first: %s)", got, wantTop, brief(want))
+	if got := r.s.Top(); !r.b.is(got, wantTop) {
+		return r.errf("Top = %s, want %s (top first: %s)", r.b.show(got), r.b.want(wantTop), r.b.wants(want))
 	}
 	sl := r.s.Slice()
 	if n == 0 && sl != nil {
-		return r.errf("Slice of an empty stack = %v, want nil", sl)
+		return r.errf("Slice of an empty stack = %s, want nil", r.b.list(sl))
 	}
-	if !eqInts(sl, want) {
-		return r.errf("Slice = %s, reference (newest first) %s", brief(sl), brief(want))
+	if !r.b.eq(sl, want) {
+		return r.errf("Slice = %s, reference (newest first) %s", r.b.list(sl), r.b.wants(want))
 	}
-	if r.keptSlice != nil && !eqInts(r.keptSlice, r.keptCopy) {
-		return r.errf("a slice returned by an earlier Slice() call changed afterwards: now %s, was %s", brief(r.keptSlice), brief(r.keptCopy))
+	if r.keptSlice != nil && !r.b.sameAll(r.keptSlice, r.keptCopy) {
+		return r.errf("a slice returned by an earlier Slice() call changed afterwards: now %s, was %s", r.b.list(r.keptSlice), r.b.list(r.keptCopy))
 	}
 	if n > 0 && (r.keptSlice == nil || n%3 == 0) {
 		r.keptSlice = r.s.Slice()
-		r.keptCopy = append([]int(nil), r.keptSlice...)
+		r.keptCopy = append([]T(nil), r.keptSlice...)
 	}
 	for i := range sl { // Slice is a copy: scribbling on it must not reach the stack
-		sl[i] = -777
+		sl[i] = r.b.scribble
 	}
-	var got []int
-	r.s.Each(func(v int) bool { got = append(got, v); return len(got) < n+8 })
-	if !eqInts(got, want) {
-		return r.errf("Each lists %s, reference (newest first) %s", brief(got), brief(want))
+	got := make([]T, 0, n)
+	r.s.Each(func(v T) bool { got = append(got, v); return len(got) < n+8 })
+	if !r.b.eq(got, want) {
+		return r.errf("Each lists %s, reference (newest first) %s", r.b.list(got), r.b.wants(want))
 	}
 	for _, k := range []int{0, n - 1, n, n + 1} {
 		if k >= 0 {
@@ -181,12 +184,12 @@ func (r *stackRun) check() string {
 	return ""
 }
 
-func (r *stackRun) doPush(viaAdd bool) string {
+func (r *stackRun[T]) doPush(viaAdd bool) string {
 	r.serial++
 	if viaAdd {
-		r.s.Add(r.serial)
+		r.s.Add(r.b.in(r.serial))
 	} else {
-		r.s.Push(r.serial)
+		r.s.Push(r.b.in(r.serial))
 	}
 	if r.poppedDeep {
 		r.popThenPush++
@@ -196,18 +199,18 @@ func (r *stackRun) doPush(viaAdd bool) string {
 	return r.check()
 }
 
-func (r *stackRun) doPop() string {
+func (r *stackRun[T]) doPop() string {
 	got, ok := r.s.Pop()
 	if len(r.ref) == 0 {
 		r.popEmpty++
 		if ok {
-			return r.errf("Pop on an empty stack = (%d, true), want ok = false", got)
+			return r.errf("Pop on an empty stack = (%s, true), want ok = false", r.b.show(got))
 		}
 	} else {
 		want := r.ref[len(r.ref)-1]
 		r.ref = r.ref[:len(r.ref)-1]
-		if !ok || got != want {
-			return r.errf("Pop = (%d, %v), want (%d, true)", got, ok, want)
+		if !ok || !r.b.is(got, want) {
+			return r.errf("Pop = (%s, %v), want (%s, true)", r.b.show(got), ok, r.b.want(want))
 		}
 		if len(r.ref) > 0 {
 			r.poppedDeep = true
@@ -216,7 +219,7 @@ func (r *stackRun) doPop() string {
 	return r.check()
 }
 
-func (r *stackRun) apply(op Op) string {
+func (r *stackRun[T]) apply(op Op) string {
 	r.sub = 0
 	a := abs(op.A)
 	switch op.K {
@@ -244,10 +247,10 @@ func (r *stackRun) apply(op Op) string {
 			n = []int{math.MinInt, math.MinInt + 1, -1 << 32, -math.MaxInt}[a%4]
 		}
 		r.peekNeg++
-		var got int
+		var got T
 		var ok bool
 		if pv := vk.PanicValue(func() { got, ok = r.s.Peek(n) }); pv == nil {
-			return r.errf("Peek(%d) returned (%d, %v); the documentation says Peek panics if n < 0", n, got, ok)
+			return r.errf("Peek(%d) returned (%s, %v); the documentation says Peek panics if n < 0", n, r.b.show(got), ok)
 		}
 		return r.check()
 	case "each":
@@ -256,13 +259,13 @@ func (r *stackRun) apply(op Op) string {
 			return r.check()
 		}
 		j := a%n + 1
-		var got []int
-		r.s.Each(func(v int) bool { got = append(got, v); return len(got) < j })
+		var got []T
+		r.s.Each(func(v T) bool { got = append(got, v); return len(got) < j })
 		if len(got) != j {
 			return r.errf("Each made %d callbacks although the callback returned false at #%d", len(got), j)
 		}
-		if !eqInts(got, r.topFirst()[:j]) {
-			return r.errf("Each (stopped at %d) lists %s, reference (newest first) %s", j, brief(got), brief(r.topFirst()))
+		if !r.b.eq(got, r.topFirst()[:j]) {
+			return r.errf("Each (stopped at %d) lists %s, reference (newest first) %s", j, r.b.list(got), r.b.wants(r.topFirst()))
 		}
 		return ""
 	case "clear":
@@ -291,14 +294,36 @@ func (r *stackRun) apply(op Op) string {
 	return r.errf("VK-INFRA unknown op kind %q", op.K)
 }
 
+// runStack instantiates the interpreter with the case's element kind.
 func runStack(c SeqCase, o *vk.Obs) string {
-	r := &stackRun{c: c, step: -1}
+	elem.ResetPtr()
+	switch c.Elem {
+	case "", elem.Int:
+		return runStackOf(c, o, cmpBound(elem.IntKit()))
+	case elem.Str:
+		return runStackOf(c, o, cmpBound(elem.StrKit()))
+	case elem.I16:
+		return runStackOf(c, o, cmpBound(elem.I16Kit()))
+	case elem.Wide:
+		return runStackOf(c, o, cmpBound(elem.WideKit()))
+	case elem.Ptr:
+		return runStackOf(c, o, cmpBound(elem.PtrKit()))
+	case elem.Any:
+		return runStackOf(c, o, cmpBound(elem.AnyKit()))
+	case elem.Bytes:
+		return runStackOf(c, o, bytesBound())
+	}
+	return badKind(c.Elem)
+}
+
+func runStackOf[T any](c SeqCase, o *vk.Obs, b *bound[T]) string {
+	r := &stackRun[T]{b: b, c: c, step: -1}
 	switch c.Ctor {
 	case "zero":
-		var s stack.Stack[int]
+		var s stack.Stack[T]
 		r.s = &s
 	case "new":
-		r.s = stack.New[int]()
+		r.s = stack.New[T]()
 	default:
 		return r.errf("VK-INFRA unknown constructor %q", c.Ctor)
 	}
@@ -320,6 +345,7 @@ func runStack(c SeqCase, o *vk.Obs) string {
 		o.NonTrivial()
 	}
 	o.Class("ctor=" + c.Ctor)
+	o.Class("elem=" + kindName(c.Elem))
 	o.ClassIf(r.popThenPush > 0, "push_after_pop_on_nonempty")
 	o.ClassIf(r.peekOut > 0, "peek_out_of_range")
 	o.ClassIf(r.peekNeg > 0, "peek_negative")
